@@ -527,8 +527,11 @@ def gen_correspondence(ctx, rules, rng):
             ctx.mismatch("rrsgen.prefix (translated _parse_rfc prefix vs the statements themselves)", q, e, g)
     ctx.traces += len(reqs); ctx.count("gen_prefix_cases", len(reqs))
     # 2. the parameter loop
-    class Mark(object):
+    class Mark(datetime.tzinfo):
         def __init__(self, how, name): self.how, self.name = how, name
+        def utcoffset(self, dt): return datetime.timedelta(hours=1)
+        def dst(self, dt): return datetime.timedelta(0)
+        def tzname(self, dt): return "mark"
     class Mapping(object):
         def get(self, k, default=None): return Mark("m", k)
     pool = ["TZID=X", "TZID=Y", "TZID=NOPE", "VALUE=DATE-TIME", "VALUE=DATE", "FOO=1", "TZID=", "TZID=ATZID=X", "XTZID=Y", "TZID=X;", "tzid=X", "", "VALUE=DATE-TIME "]
@@ -550,12 +553,29 @@ def gen_correspondence(ctx, rules, rng):
                 e = "err " + exc_kind(ex)
             reqs.append("rrsgen.parms %s [%s] [%s]" % (kind, ",".join(hexs(k) + ":" + hexs(v) for k, v in table.items()), ",".join(hexs(x) for x in parms)))
             exp.append(e)
+            # the WHOLE method on the same parameters and one to three compact date values (some with Z): the real _parse_date_value
+            import dateutil.rrule as RR
+            vals = [rng.choice(["19970902T090000", "19970903T090000Z", "00010101T000000", "20240229T235959"]) for _ in range(rng.randint(1, 3))]
+            value = ",".join(vals)
+            try:
+                res = RR.rrulestr._parse_date_value(value, parms, table, False, tzids, None)
+                def zmark(z):
+                    if z is None: return "-"
+                    if isinstance(z, Mark): return "l" + z.how + hexs(z.name)
+                    return "t"
+                e2 = "ok [" + ",".join(hexs(v_) + "/" + zmark(d.tzinfo) for v_, d in zip(vals, res)) + "]"
+                if len(res) != len(vals) or any(d.replace(tzinfo=None) != datetime.datetime.strptime(v_.rstrip("Z"), "%Y%m%dT%H%M%S") for v_, d in zip(vals, res)):
+                    e2 = "ok wrong datetimes " + repr(res)
+            except Exception as ex:
+                e2 = "err " + exc_kind(ex)
+            reqs.append("rrsgen.datevalue %s [%s] [%s] %s" % (kind, ",".join(hexs(k) + ":" + hexs(v) for k, v in table.items()), ",".join(hexs(x) for x in parms), hexs(value)))
+            exp.append(e2)
     finally:
         TZ.gettz = saved
     got = ctx.driver(reqs)
     for q, e, g in zip(reqs, exp, got):
         if e != g:
-            ctx.mismatch("rrsgen.parms (translated _parse_date_value parameter loop vs the statements themselves)", q, e, g)
+            ctx.mismatch("rrsgen.parms / rrsgen.datevalue (translated _parse_date_value vs the statements / the method itself)", q, e, g)
     ctx.traces += len(reqs); ctx.count("gen_parms_cases", len(reqs))
     # 3. attaching the zone: all nine combinations
     zones = {"-": None, "t": datetime.timezone.utc, "lc" + hexs("X"): datetime.timezone(datetime.timedelta(hours=1), "X")}
